@@ -1,8 +1,360 @@
-//! C04 harness entry (not implemented yet).
+//! C04 / C05 / C11 harness: the LEF reader and writer of lef21 through their public API.
+//!
+//! Ops (one JSON object per line):
+//!   {"op":"parse","src":HEX}        -> {"r": RES}
+//!   {"op":"rt","src":HEX}           -> {"r": RES, "w": W, "r2": RES|null}     (read, write, read again)
+//!   {"op":"time","src":HEX,"reps":n}-> {"ns": best-of-n nanoseconds of one read, "r": "ok"|"err"}
+//!   {"op":"f64","s":HEX}            -> {"i32": bool, "f64": bool}               (lex_number's number test)
+//!   {"op":"dec","s":HEX}            -> {"ok": DEC, "disp": HEX} | {"err": str}  (LefDecimal::from_str / Display)
+//!   {"op":"chars"}                  -> {"ws": [[lo,hi]..], "alpha": [[lo,hi]..], "upper": [[lo,hi]..]} over all scalar values
+//! RES = {"ok": LIB} | {"err": "<Debug of LefError>"} | {"panic": msg}
+//! W   = {"text": HEX} | {"werr": "<Debug>"} | {"wpanic": msg}
+//! Strings are hex of their UTF-8 bytes, decimals are [negative, "mantissa digits", scale], chars are scalar values.
+//! `parse_str` is private in lef21, so texts go through a scratch file and `LefLibrary::open`.
 use l21h::{json, Value};
+use lef21::*;
+use std::panic::{catch_unwind, AssertUnwindSafe};
+use std::str::FromStr;
 
-fn run(_case: &Value) -> Value {
-    json!({"harness_error": "not implemented"})
+fn hex(b: &[u8]) -> String {
+    let mut s = String::with_capacity(b.len() * 2);
+    for x in b {
+        s.push_str(&format!("{:02x}", x));
+    }
+    s
+}
+fn unhex(s: &str) -> Vec<u8> {
+    let b = s.as_bytes();
+    (0..b.len() / 2)
+        .map(|i| u8::from_str_radix(std::str::from_utf8(&b[2 * i..2 * i + 2]).unwrap(), 16).unwrap())
+        .collect()
+}
+fn hs(s: &str) -> Value {
+    json!(hex(s.as_bytes()))
+}
+fn dec(d: &LefDecimal) -> Value {
+    let m = d.mantissa();
+    json!([d.is_sign_negative(), m.unsigned_abs().to_string(), d.scale()])
+}
+fn opt<T>(o: &Option<T>, f: impl Fn(&T) -> Value) -> Value {
+    match o {
+        Some(x) => f(x),
+        None => Value::Null,
+    }
+}
+fn list<T>(v: &[T], f: impl Fn(&T) -> Value) -> Value {
+    Value::Array(v.iter().map(f).collect())
+}
+fn dbg<T: std::fmt::Debug>(x: &T) -> Value {
+    json!(format!("{:?}", x))
+}
+fn point(p: &LefPoint) -> Value {
+    json!({"x": dec(&p.x), "y": dec(&p.y)})
+}
+fn mask(m: &Option<LefMask>) -> Value {
+    opt(m, |m| dec(&m.mask))
+}
+fn shape(s: &LefShape) -> Value {
+    match s {
+        LefShape::Rect(m, a, b) => json!({"v": "Rect", "a": [mask(m), point(a), point(b)]}),
+        LefShape::Polygon(m, p) => json!({"v": "Polygon", "a": [mask(m), list(p, point)]}),
+        LefShape::Path(m, p) => json!({"v": "Path", "a": [mask(m), list(p, point)]}),
+    }
+}
+fn step(p: &LefStepPattern) -> Value {
+    json!({"numx": dec(&p.numx), "numy": dec(&p.numy), "spacex": dec(&p.spacex), "spacey": dec(&p.spacey)})
+}
+fn geometry(g: &LefGeometry) -> Value {
+    match g {
+        LefGeometry::Shape(s) => json!({"v": "Shape", "a": [shape(s)]}),
+        LefGeometry::Iterate { shape: s, pattern } => json!({"v": "Iterate", "a": [shape(s), step(pattern)]}),
+    }
+}
+fn layer_geoms(l: &LefLayerGeometries) -> Value {
+    json!({
+        "layer_name": hs(&l.layer_name),
+        "geometries": list(&l.geometries, geometry),
+        "vias": list(&l.vias, |v| json!({"via_name": hs(&v.via_name), "pt": point(&v.pt)})),
+        "except_pg_net": opt(&l.except_pg_net, |b| json!(*b)),
+        "spacing": opt(&l.spacing, |s| match s {
+            LefLayerSpacing::Spacing(d) => json!({"v": "Spacing", "a": [dec(d)]}),
+            LefLayerSpacing::DesignRuleWidth(d) => json!({"v": "DesignRuleWidth", "a": [dec(d)]}),
+        }),
+        "width": opt(&l.width, dec),
+    })
+}
+fn property(p: &LefProperty) -> Value {
+    json!({"name": hs(&p.name), "value": hs(&p.value)})
+}
+fn port(p: &LefPort) -> Value {
+    json!({"class": opt(&p.class, dbg), "layers": list(&p.layers, layer_geoms)})
+}
+fn pin(p: &LefPin) -> Value {
+    json!({
+        "name": hs(&p.name),
+        "ports": list(&p.ports, port),
+        "direction": opt(&p.direction, |d| match d {
+            LefPinDirection::Input => json!({"v": "Input", "a": []}),
+            LefPinDirection::Output { tristate } => json!({"v": "Output", "a": [*tristate]}),
+            LefPinDirection::Inout => json!({"v": "Inout", "a": []}),
+            LefPinDirection::FeedThru => json!({"v": "FeedThru", "a": []}),
+        }),
+        "use_": opt(&p.use_, dbg),
+        "shape": opt(&p.shape, dbg),
+        "antenna_model": opt(&p.antenna_model, dbg),
+        "antenna_attrs": list(&p.antenna_attrs, |a| json!({"key": hs(&a.key), "val": dec(&a.val), "layer": opt(&a.layer, |s| hs(s))})),
+        "taper_rule": opt(&p.taper_rule, |s| hs(s)),
+        "supply_sensitivity": opt(&p.supply_sensitivity, |s| hs(s)),
+        "ground_sensitivity": opt(&p.ground_sensitivity, |s| hs(s)),
+        "must_join": opt(&p.must_join, |s| hs(s)),
+        "net_expr": opt(&p.net_expr, |s| hs(s)),
+        "properties": list(&p.properties, property),
+    })
+}
+fn macro_class(c: &LefMacroClass) -> Value {
+    match c {
+        LefMacroClass::Cover { bump } => json!({"v": "Cover", "a": [*bump]}),
+        LefMacroClass::Ring => json!({"v": "Ring", "a": []}),
+        LefMacroClass::Block { tp } => json!({"v": "Block", "a": [opt(tp, dbg)]}),
+        LefMacroClass::Pad { tp } => json!({"v": "Pad", "a": [opt(tp, dbg)]}),
+        LefMacroClass::Core { tp } => json!({"v": "Core", "a": [opt(tp, dbg)]}),
+        LefMacroClass::EndCap { tp } => json!({"v": "EndCap", "a": [dbg(tp)]}),
+    }
+}
+fn pair(p: &(LefDecimal, LefDecimal)) -> Value {
+    json!([dec(&p.0), dec(&p.1)])
+}
+fn mac(m: &LefMacro) -> Value {
+    json!({
+        "name": hs(&m.name),
+        "pins": list(&m.pins, pin),
+        "obs": list(&m.obs, layer_geoms),
+        "class": opt(&m.class, macro_class),
+        "foreign": opt(&m.foreign, |f| json!({"cell_name": hs(&f.cell_name), "pt": opt(&f.pt, point), "orient": opt(&f.orient, dbg)})),
+        "origin": opt(&m.origin, point),
+        "size": opt(&m.size, pair),
+        "symmetry": opt(&m.symmetry, |v| list(v, dbg)),
+        "site": opt(&m.site, |s| hs(s)),
+        "source": opt(&m.source, dbg),
+        "eeq": opt(&m.eeq, |s| hs(s)),
+        "fixed_mask": m.fixed_mask,
+        "properties": list(&m.properties, property),
+        "density": opt(&m.density, |v| list(v, |d| json!({
+            "layer_name": hs(&d.layer_name),
+            "geometries": list(&d.geometries, |r| json!({"pt1": point(&r.pt1), "pt2": point(&r.pt2), "density_value": dec(&r.density_value)})),
+        }))),
+    })
+}
+fn via_shape(s: &LefViaShape) -> Value {
+    match s {
+        LefViaShape::Rect(m, a, b) => json!({"v": "Rect", "a": [mask(m), point(a), point(b)]}),
+        LefViaShape::Polygon(m, p) => json!({"v": "Polygon", "a": [mask(m), list(p, point)]}),
+    }
+}
+fn via_def(v: &LefViaDef, unsup: &mut bool) -> Value {
+    if v.properties.is_some() {
+        *unsup = true;
+    }
+    let data = match &v.data {
+        LefViaDefData::Fixed(f) => json!({"v": "Fixed", "a": [{
+            "resistance_ohms": opt(&f.resistance_ohms, dec),
+            "layers": list(&f.layers, |l| json!({"layer_name": hs(&l.layer_name), "shapes": list(&l.shapes, via_shape)})),
+        }]}),
+        LefViaDefData::Generated(g) => {
+            if g.pattern.is_some() {
+                *unsup = true;
+            }
+            json!({"v": "Generated", "a": [{
+                "via_rule_name": hs(&g.via_rule_name),
+                "cut_size_x": dec(&g.cut_size_x), "cut_size_y": dec(&g.cut_size_y),
+                "bot_metal_layer": hs(&g.bot_metal_layer), "cut_layer": hs(&g.cut_layer), "top_metal_layer": hs(&g.top_metal_layer),
+                "cut_spacing_x": dec(&g.cut_spacing_x), "cut_spacing_y": dec(&g.cut_spacing_y),
+                "bot_enc_x": dec(&g.bot_enc_x), "bot_enc_y": dec(&g.bot_enc_y),
+                "top_enc_x": dec(&g.top_enc_x), "top_enc_y": dec(&g.top_enc_y),
+                "rowcol": opt(&g.rowcol, |r| json!({"rows": dec(&r.rows), "cols": dec(&r.cols)})),
+                "origin": opt(&g.origin, point),
+                "offset": opt(&g.offset, |o| json!({"bot_x": dec(&o.bot_x), "bot_y": dec(&o.bot_y), "top_x": dec(&o.top_x), "top_y": dec(&o.top_y)})),
+            }]})
+        }
+    };
+    json!({"name": hs(&v.name), "default": v.default, "data": data})
+}
+fn site(s: &LefSite, unsup: &mut bool) -> Value {
+    if s.row_pattern.is_some() {
+        *unsup = true;
+    }
+    json!({"name": hs(&s.name), "class": dbg(&s.class), "size": pair(&s.size), "symmetry": opt(&s.symmetry, |v| list(v, dbg))})
+}
+fn units(u: &LefUnits) -> Value {
+    json!({
+        "database_microns": opt(&u.database_microns, |d| json!(d.0)),
+        "time_ns": opt(&u.time_ns, dec),
+        "capacitance_pf": opt(&u.capacitance_pf, dec),
+        "resistance_ohms": opt(&u.resistance_ohms, dec),
+        "power_mw": opt(&u.power_mw, dec),
+        "current_ma": opt(&u.current_ma, dec),
+        "voltage_volts": opt(&u.voltage_volts, dec),
+        "frequency_mhz": opt(&u.frequency_mhz, dec),
+    })
+}
+fn range(r: &Option<LefPropertyRange>) -> Value {
+    opt(r, |r| json!([dec(&r.begin), dec(&r.end)]))
+}
+fn propdef(p: &LefPropertyDefinition) -> Value {
+    match p {
+        LefPropertyDefinition::LefString(t, n, v) => json!({"v": "LefString", "a": [dbg(t), hs(n), opt(v, |s| hs(s))]}),
+        LefPropertyDefinition::LefReal(t, n, v, r) => json!({"v": "LefReal", "a": [dbg(t), hs(n), opt(v, dec), range(r)]}),
+        LefPropertyDefinition::LefInteger(t, n, v, r) => json!({"v": "LefInteger", "a": [dbg(t), hs(n), opt(v, dec), range(r)]}),
+    }
+}
+fn lib(l: &LefLibrary) -> Value {
+    let mut unsup = l.layers.is_some()
+        || l.max_via_stack.is_some()
+        || l.via_rules.is_some()
+        || l.via_rule_generators.is_some()
+        || l.non_default_rules.is_some();
+    let vias = Value::Array(l.vias.iter().map(|v| via_def(v, &mut unsup)).collect());
+    let sites = Value::Array(l.sites.iter().map(|s| site(s, &mut unsup)).collect());
+    json!({
+        "macros": list(&l.macros, mac),
+        "sites": sites,
+        "vias": vias,
+        "version": opt(&l.version, dec),
+        "names_case_sensitive": opt(&l.names_case_sensitive, dbg),
+        "no_wire_extension_at_pin": opt(&l.no_wire_extension_at_pin, dbg),
+        "bus_bit_chars": opt(&l.bus_bit_chars, |c| json!([c.0 as u32, c.1 as u32])),
+        "divider_char": opt(&l.divider_char, |c| json!(*c as u32)),
+        "units": opt(&l.units, units),
+        "fixed_mask": l.fixed_mask,
+        "clearance_measure": opt(&l.clearance_measure, dbg),
+        "extensions": list(&l.extensions, |e| json!({"name": hs(&e.name), "data": hs(&e.data)})),
+        "manufacturing_grid": opt(&l.manufacturing_grid, dec),
+        "use_min_spacing": opt(&l.use_min_spacing, dbg),
+        "property_definitions": list(&l.property_definitions, propdef),
+        "unsupported_set": unsup,
+    })
+}
+
+fn panic_msg(p: Box<dyn std::any::Any + Send>) -> String {
+    if let Some(s) = p.downcast_ref::<&str>() {
+        s.to_string()
+    } else if let Some(s) = p.downcast_ref::<String>() {
+        s.clone()
+    } else {
+        "panic".to_string()
+    }
+}
+
+fn scratch() -> std::path::PathBuf {
+    let d = std::path::Path::new("/verif/work/lef/tmp");
+    std::fs::create_dir_all(d).expect("scratch dir");
+    d.join(format!("h{}.lef", std::process::id()))
+}
+
+/// Reads `src` through the public entry point. Err(msg) = panic.
+fn read(src: &[u8]) -> Result<LefResult<LefLibrary>, String> {
+    let p = scratch();
+    std::fs::write(&p, src).expect("write scratch");
+    catch_unwind(AssertUnwindSafe(|| LefLibrary::open(&p))).map_err(panic_msg)
+}
+fn res(r: &Result<LefResult<LefLibrary>, String>) -> Value {
+    match r {
+        Ok(Ok(l)) => json!({"ok": lib(l)}),
+        Ok(Err(e)) => json!({"err": format!("{:?}", e)}),
+        Err(m) => json!({"panic": m}),
+    }
+}
+
+fn ranges(f: impl Fn(char) -> bool) -> Value {
+    let mut out: Vec<(u32, u32)> = Vec::new();
+    let mut cur: Option<(u32, u32)> = None;
+    for cp in 0u32..=0x10FFFF {
+        let hit = match char::from_u32(cp) {
+            Some(c) => f(c),
+            None => false,
+        };
+        cur = match (cur, hit) {
+            (None, true) => Some((cp, cp)),
+            (Some((a, _)), true) => Some((a, cp)),
+            (Some(r), false) => {
+                out.push(r);
+                None
+            }
+            (None, false) => None,
+        };
+    }
+    if let Some(r) = cur {
+        out.push(r);
+    }
+    Value::Array(out.iter().map(|(a, b)| json!([a, b])).collect())
+}
+
+fn run(case: &Value) -> Value {
+    let op = case["op"].as_str().unwrap_or("");
+    match op {
+        "parse" => {
+            let src = unhex(case["src"].as_str().expect("src"));
+            json!({"r": res(&read(&src))})
+        }
+        "rt" => {
+            let src = unhex(case["src"].as_str().expect("src"));
+            let r = read(&src);
+            let rv = res(&r);
+            if let Ok(Ok(l)) = r {
+                let w = catch_unwind(AssertUnwindSafe(|| l.to_string())).map_err(panic_msg);
+                match w {
+                    Ok(Ok(t)) => {
+                        let r2 = read(t.as_bytes());
+                        json!({"r": rv, "w": {"text": hex(t.as_bytes())}, "r2": res(&r2)})
+                    }
+                    Ok(Err(e)) => json!({"r": rv, "w": {"werr": format!("{:?}", e)}, "r2": null}),
+                    Err(m) => json!({"r": rv, "w": {"wpanic": m}, "r2": null}),
+                }
+            } else {
+                json!({"r": rv, "w": null, "r2": null})
+            }
+        }
+        "time" => {
+            let src = unhex(case["src"].as_str().expect("src"));
+            let reps = case["reps"].as_u64().unwrap_or(3);
+            let p = scratch();
+            std::fs::write(&p, &src).expect("write scratch");
+            let mut best = u128::MAX;
+            let mut ok = false;
+            for _ in 0..reps {
+                let t0 = std::time::Instant::now();
+                let r = LefLibrary::open(&p);
+                let dt = t0.elapsed().as_nanos();
+                ok = r.is_ok();
+                if dt < best {
+                    best = dt;
+                }
+            }
+            json!({"ns": best as u64, "r": if ok { "ok" } else { "err" }})
+        }
+        "f64" => {
+            let b = unhex(case["s"].as_str().expect("s"));
+            let s = std::str::from_utf8(&b).expect("utf8");
+            json!({"i32": i32::from_str(s).is_ok(), "f64": f64::from_str(s).is_ok()})
+        }
+        "dec" => {
+            let b = unhex(case["s"].as_str().expect("s"));
+            let s = std::str::from_utf8(&b).expect("utf8");
+            match LefDecimal::from_str(s) {
+                Ok(d) => json!({"ok": dec(&d), "disp": hs(&d.to_string())}),
+                Err(e) => json!({"err": format!("{:?}", e)}),
+            }
+        }
+        "chars" => json!({
+            "ws": ranges(|c| c.is_whitespace()),
+            "alpha": ranges(|c| c.is_alphabetic()),
+            // scalar values changed by to_ascii_uppercase (must be exactly a..z)
+            "upper": ranges(|c| c.to_ascii_uppercase() != c),
+            "asciiws": ranges(|c| c.is_ascii_whitespace()),
+            "digit": ranges(|c| c.is_digit(10)),
+        }),
+        _ => json!({"harness_error": "bad op"}),
+    }
 }
 
 fn main() {
